@@ -10,6 +10,7 @@
 package c21
 
 import (
+	"bytes"
 	"encoding/json"
 	"errors"
 	"fmt"
@@ -106,11 +107,51 @@ func tokenClassAt(file []byte, x int) string {
 	return "other"
 }
 
+// isUnaryPrefix reports whether b, the bytes between the reported line:column
+// and Start, begins with a unary operator (+ - ! ^ * & <- or the word not) and
+// holds nothing but unary operators, white space and comments.
+func isUnaryPrefix(b []byte) bool {
+	if len(b) == 0 {
+		return false
+	}
+	first := true
+	for len(b) > 0 {
+		switch c := b[0]; {
+		case c == '<' && len(b) > 1 && b[1] == '-':
+			b = b[2:]
+		case c == '+' || c == '-' || c == '!' || c == '^' || c == '*' || c == '&':
+			b = b[1:]
+		case len(b) >= 3 && string(b[:3]) == "not" && (len(b) == 3 || b[3] == ' ' || b[3] == '\t' || b[3] == '\n' || b[3] == '\r' || b[3] == '('):
+			b = b[3:]
+		case !first && (c == ' ' || c == '\t' || c == '\n' || c == '\r'):
+			b = b[1:]
+		case !first && c == '/' && len(b) > 1 && b[1] == '*':
+			// a general comment is white space
+			i := bytes.Index(b[2:], []byte("*/"))
+			if i < 0 {
+				return false
+			}
+			b = b[i+4:]
+		case !first && c == '/' && len(b) > 1 && b[1] == '/':
+			i := bytes.IndexByte(b, '\n')
+			if i < 0 {
+				return false
+			}
+			b = b[i+1:]
+		default:
+			return false
+		}
+		first = false
+	}
+	return true
+}
+
 // disagreementClass refines a line/column disagreement into a narrow class.
 //
 //	inside:<group>  line:column denote a byte inside (Start,End], where a token of <group> starts
 //	before:<delta>, after:<delta>  line:column denote a byte before Start / after End
 //	                (delta in lines if the line differs, else in columns, bucketed)
+//	before:unary-operator  line:column denote a unary operator, Start its operand
 //	nowhere         the file has no such line:column
 func disagreementClass(d Disagreement, p Pos, file []byte) string {
 	rel := Relation(file, p)
@@ -143,6 +184,15 @@ func disagreementClass(d Disagreement, p Pos, file []byte) string {
 			}
 		}
 		return d.Kind + ":nowhere"
+	}
+	if rel == "before" {
+		// A unary operator followed by a binary operator loses its own bytes from
+		// Start (the parser moves the Start of a pending unary operator to the Start
+		// of its operand): line:column denote the operator, Start the operand, and
+		// between them there are only unary operators and white space.
+		if x, ok := OffsetOf(file, p.Line, p.Column); ok && isUnaryPrefix(file[x:p.Start]) {
+			return "before:unary-operator"
+		}
 	}
 	line, col, ok := LineCol(file, p.Start)
 	bucket := func(n int) string {
@@ -188,7 +238,7 @@ func judgeError(be *scriggo.BuildError, fsys *bytesgen.RecFS) (keys []string, de
 		if d.Kind == "line" || d.Kind == "column" {
 			k = disagreementClass(d, p, content)
 		}
-		if strings.HasPrefix(k, "inside:") {
+		if strings.HasPrefix(k, "inside:") || k == "before:unary-operator" {
 			// systematic: keyed by the token the line:column point at, not by the message
 			keys = append(keys, core.SigJoin(typ, k))
 		} else {
@@ -331,7 +381,7 @@ func (p prop) Drive(d *core.Driver) error {
 		"the column is not judged when the bytes between the line start and Start are not valid UTF-8; the line and the ranges always are",
 		"builds that panic or kill the process are not judged here (C04)",
 	}
-	total := d.N(30000, 1000000)
+	total := d.N(30000, 750000)
 	round := 60000
 	r := d.Rand("mix")
 	truncs := g.TruncInputs(d.Rand("trunc"), d.N(60, 150), d.N(25, 0))
